@@ -132,9 +132,16 @@ def r1_chip_info(program, folder, rep):
     built = T.filtered(kw.get("working_links", ("?",)))
     LINK = ("elem", ("global", "Links"))
     if built and len(built) == 1 and built[0][0] == ("global", "Links") \
-            and built[0][1] == LINK and len(built[0][2]) == 1 and \
-            built[0][2][0][1] is True:
-        cond = _strip_truth(built[0][2][0][0])
+            and built[0][1] == LINK and len(built[0][2]) == 1 and (
+                built[0][2][0][1] is True or (
+                    built[0][2][0][0][0] == "cmp" and
+                    built[0][2][0][0][1] == "Eq" and
+                    ("const", 0) in built[0][2][0][0][2:])):
+        cond = built[0][2][0][0]
+        if built[0][2][0][1] is not True:
+            # 'x != 0' arrives as (x == 0, False): the same test as x
+            cond = cond[3] if cond[2] == ("const", 0) else cond[2]
+        cond = _strip_truth(cond)
         lb = []
         for m in links:
             b_ = bits(_subst(plain(cond), LINK, ("const", m.value)))
@@ -142,15 +149,27 @@ def r1_chip_info(program, folder, rep):
                 reify(plain(("attr", INFO, "arg1")))) else None)
         if None not in lb and lb == [8 + m.value for m in links]:
             got["working_links"] = (min(lb), len(lb))
+    unread = sorted(f_ for f_ in INFO_ARG1 if f_ not in got)
     for field, (lo, n) in sorted(INFO_ARG1.items()):
+        if field in unread:
+            continue
         rep.check(got.get(field) == (lo, n), "C14-R1", inst,
                   "%s = arg1 bits %d:%d" % (field, lo + n - 1, lo),
                   construct="%s from %s" % (field, got.get(field)), node=fn,
                   fail="%s is decoded from arg1 bits %s; SC&MP reports it in "
                        "bits %d:%d" % (field, got.get(field), lo + n - 1,
                                        lo))
+    if unread:
+        rep.undecided("C14-R1", "get_chip_info: %s %s not computed from the "
+                      "first reply word by shifts and masks these rules can "
+                      "read" % (", ".join(unread),
+                                "is" if len(unread) == 1 else "are"))
     # payload
-    up = [c for c in calls_in(fn, "unpack_from")]
+    up = [c for c in calls_in(fn, ("unpack_from", "unpack"))]
+    if len(up) != 1 or folder.eval(up[0].args[0], {}, mod) != "<18BHI":
+        raise AnalysisError("get_chip_info: the payload is not decoded by "
+                            "one struct.unpack_from('<18BHI', ...); another "
+                            "(possibly equivalent) format is not analysed")
     okp = len(up) == 1 and folder.eval(up[0].args[0], {}, mod) == "<18BHI" \
         and T.term(up[0].args[1]) == ("attr", INFO, "data")
     DATA = T.term(up[0]) if okp else None
@@ -172,8 +191,11 @@ def r1_chip_info(program, folder, rep):
         le_ = kw.get("local_ethernet_chip", ("?",))
         if le_[0] == "tuple" and len(le_) == 3:
             src = unparse(reify(plain(("comp", DATA, 18))))
-            okl = [bits(e) for e in le_[1:]] == [(src, 8, 8, 0),
-                                                 (src, 0, 8, 0)]
+            hi_, lo_ = [bits(e) for e in le_[1:]]
+            # (the source is the 16-bit 'H' field: everything above bit 8
+            # is its upper byte, masked or not)
+            okl = hi_ is not None and hi_[:2] == (src, 8) and hi_[2] >= 8 \
+                and hi_[3] == 0 and lo_ == (src, 0, 8, 0)
         ip = plain(kw.get("ip_address", ("?",)))
         m = match(("call", ("attr", ("const", "."), "join"),
                    (("genexp", ("call", ("global", "str"), (V("b"),), ()),
@@ -872,6 +894,7 @@ def r5_reservations(program, rep):
     loc = [b_ for b_ in batches if names[2] in b_[2]]
     IDLE = ("attr", ("global", "AppState"), "idle")
     okg = okl = okm = False
+    local_read = False
     GLOBAL = None
     if len(glob) == 1:
         built = T.filtered(glob[0][2][names[1]])
@@ -904,12 +927,17 @@ def r5_reservations(program, rep):
                 okl = len(idle) == 1 and len(rest) == 1 and \
                     rest[0][1] is False
                 if okl:
+                    local_read = True
                     bt = bit_test(rest[0][0])
                     okl = bt is not None and bt[1] == ("index", CS) and \
                         bt[0] == GLOBAL
     rep.check(okg, "C14-R5", inst, "global reservations = cores whose bit is "
               "set in the all-chips mask (single-bit test of that core)",
               construct="global filter", node=fn)
+    if not okl and not local_read:
+        raise AnalysisError("build_core_constraints: the per-chip "
+                            "reservations are not built by filtering the "
+                            "chip's core states in the form analysed")
     rep.check(okl, "C14-R5", inst, "per-chip reservations = that chip's "
               "non-idle cores whose bit is NOT set in the global mask "
               "(single-bit test of the same core number): the two sets "
@@ -953,7 +981,13 @@ def r5_reservations(program, rep):
                 walk(x[3], seen)
                 return
             okm = False
+            unknown.append(x)
+        unknown = []
         walk(GLOBAL, set())
+        if unknown:
+            raise AnalysisError("build_core_constraints: the all-chips mask "
+                                "is built from %s, a form these rules do "
+                                "not read" % show(unknown[0])[:50])
         okm = okm and n_and >= 1 and n_busy >= 1
     rep.check(okm, "C14-R5", inst, "global mask = AND over all chips of the "
               "chip's non-idle-core bits (0 for an empty machine)",
@@ -1350,16 +1384,24 @@ def r6_status(program, folder, rep):
                     TI.term(ast.Name(id=ADDR[1].var, ctx=ast.Load()),
                             TI.cfg.loop_head[id(loops[0])]))]:
                 for sub in subterms(st_):
-                    if sub[0] == "call" and sub[1] == (
-                            "attr", ("global", "struct"), "unpack") and \
-                            len(sub[2]) == 2:
+                    if sub[0] == "call" and sub[1] in ((
+                            "attr", ("global", "struct"), "unpack"), (
+                            "attr", ("global", "struct"), "unpack_from")) \
+                            and len(sub[2]) == 2:
                         DATA = sub
             alts = [plain(x_) for x_ in one_level(ADDR)]
+            # unpack('<4I', raw[:16]) or unpack_from('<4I', raw): the first
+            # sixteen bytes either way
+            from_ = DATA is not None and DATA[1][2] == "unpack_from"
+            RAW_ = None
+            if DATA is not None and from_:
+                RAW_ = DATA[2][1]
+            elif DATA is not None and DATA[2][1][0] == "item" and \
+                    DATA[2][1][2] == ("slice", ("const", None),
+                                      ("const", HDR), ("const", None)):
+                RAW_ = DATA[2][1][1]
             oki = FIRST in alts and DATA is not None and \
-                DATA[2][0] == ("const", "<4I") and \
-                DATA[2][1][0] == "item" and \
-                DATA[2][1][2] == ("slice", ("const", None), ("const", HDR),
-                                  ("const", None)) and \
+                DATA[2][0] == ("const", "<4I") and RAW_ is not None and \
                 ("comp", DATA, 0) in alts and len(alts) == 2
             # the loop runs while the next pointer is non-zero
             wn = [n_ for n_ in TI.cfg.nodes if n_.kind == "assume" and
@@ -1371,7 +1413,7 @@ def r6_status(program, folder, rep):
                     plain(ADDR), mk_cmp("Eq", plain(ADDR), ("const", 0)))
             # what is appended: data[16:16 + length]
             if oki:
-                RAW = DATA[2][1][1]
+                RAW = RAW_
                 LEN = ("comp", DATA, 3)
                 app = []
                 for b_ in TI.binds:
